@@ -8,7 +8,7 @@
 (*                                                                         *)
 (* IDs are quad strings (A5Digits); strings are sequences of ASCII codes.  *)
 (***************************************************************************)
-EXTENDS A5Tree, TLC
+EXTENDS A5Compact, TLC
 
 IsCanonRes(q, r) == IsQuads(q) /\ Canonical(q) /\ ResOfCanon(q) = r
 
@@ -174,4 +174,41 @@ UncompactOK(e) ==
              /\ Len(e.out) = SumFan(e.cells, e.target, 1)
              /\ Len(e.par) = Len(e.out)
              /\ BlocksOK(e.cells, e.target, e.out, e.par, 1)
+---------------------------------------------------------------------------
+(* C08 / C10: compact *)
+
+AllCanon(ids) == \A i \in 1..Len(ids) : IsQuads(ids[i]) /\ Canonical(ids[i])
+DecSet(ids) == {Decode(ids[i]).cell : i \in 1..Len(ids)}
+
+\* C08: one input set presented in several orders / multiplicities (e.variants), the outputs of
+\* compact for each (e.outs), and optionally the code's own uncompact of input and output at the
+\* finest input resolution (e.exp_in, e.exp_out)
+Compact8OK(e) ==
+  /\ Len(e.variants) >= 1 /\ Len(e.outs) = Len(e.variants) /\ Len(e.oks) = Len(e.variants)
+  /\ \A k \in 1..Len(e.variants) : AllCanon(e.variants[k]) /\ e.oks[k] /\ AllCanon(e.outs[k])
+  /\ LET S == DecSet(e.variants[1])
+          C == CanonSet(S)
+     IN /\ \A k \in 1..Len(e.variants) : DecSet(e.variants[k]) = S
+        /\ \A k \in 1..Len(e.outs) :
+             /\ NoRepeats(e.outs[k])                              \* no duplicates
+             /\ CanonSet(DecSet(e.outs[k])) = C                   \* same cover as the input
+             /\ SeqSet(e.outs[k]) = SeqSet(e.outs[1])             \* order / multiplicity independent
+  /\ e.has_expand => /\ e.exp_ok
+                     /\ SeqSet(e.exp_in) = SeqSet(e.exp_out)      \* uncompact(in, R) = uncompact(out, R) as sets
+
+\* C10: a non-overlapping input (judged by the spec), its compaction, and the compaction of that
+Compact10OK(e) ==
+  /\ AllCanon(e.cells) /\ e.ok /\ AllCanon(e.out)
+  /\ LET S == DecSet(e.cells)
+          O == DecSet(e.out)
+     IN Antichain(S) =>
+          /\ Maximal(O)                                           \* no complete sibling group left
+          /\ O = CanonSet(S)                                      \* the canonical description of the region
+          /\ e.ok2 /\ SeqSet(e.again) = SeqSet(e.out) /\ Len(e.again) = Len(e.out)   \* idempotent
+
+\* two non-overlapping inputs covering the same region compact to the same set
+CompactPairOK(e) ==
+  /\ AllCanon(e.a) /\ AllCanon(e.b) /\ e.ok /\ AllCanon(e.out_a) /\ AllCanon(e.out_b)
+  /\ LET A == DecSet(e.a)  Bs == DecSet(e.b)
+     IN (Antichain(A) /\ Antichain(Bs) /\ CanonSet(A) = CanonSet(Bs)) => SeqSet(e.out_a) = SeqSet(e.out_b)
 =============================================================================
